@@ -66,5 +66,18 @@ Definition ar_bound (with_unused : bool) (es : list ar_entry) : N :=
 Definition ar_mem_add (cap n : N) (es : list ar_entry) : option N :=
   if ar_reserve_ok cap n es then ar_insert_all cap n es else None.
 
+(* any sequence of MemTable::add calls on one memtable: an accepted batch advances the counter, a refused one (ArenaFull,
+   decided before anything is inserted) leaves it where it was *)
+Definition ar_step (cap n : N) (es : list ar_entry) : N :=
+  match ar_mem_add cap n es with Some n' => n' | None => n end.
+Definition ar_run (cap : N) (bs : list (list ar_entry)) (n : N) : N := fold_left (ar_step cap) bs n.
+(* what the accepted batches of the sequence cost *)
+Fixpoint ar_accepted_cost (cap n : N) (bs : list (list ar_entry)) : N :=
+  match bs with
+  | [] => 0
+  | es :: r => if ar_reserve_ok cap n es then ar_sum_alloc es + ar_accepted_cost cap (n + ar_sum_alloc es) r
+               else ar_accepted_cost cap n r
+  end.
+
 Definition arena_params_ok : bool :=
   (1 <=? ARENA_MAX_HEIGHT) && (1 <=? ARENA_ALIGN) && (ARENA_ALIGN - 1 <? ARENA_ENTRY_SLACK) && (ARENA_START <=? 1).
